@@ -174,6 +174,21 @@ impl C12 {
                 format!("route of {n} hops offering {offer}: SimulateSwapOperations = {} but execution returned {got}", q.return_amount),
             ));
         }
+        // asking for exactly the quoted amount must be satisfiable by the same route
+        let snap = c.fork();
+        let op = Op::Pm {
+            sender: sender.to_string(),
+            msg: PmMsg::ExecuteSwapOperations { operations: ops.to_vec(), minimum_receive: Some(q.return_amount), receiver: None, max_slippage: half() },
+            funds: vec![offer.clone()],
+        };
+        let o2 = c.exec_op(&op, None);
+        c.w.restore(&snap);
+        if !o2.ok() {
+            return Err(viol(
+                "C12.quote_not_executable",
+                format!("route of {n} hops offering {offer}: quoted {} and executes for {got} without a minimum, but fails with minimum_receive = the quote: {}", q.return_amount, o2.err_text()),
+            ));
+        }
         c.stats.sig(&["route", &n.to_string()]);
         Ok(())
     }
